@@ -34,6 +34,7 @@ def resolve (f : Family) (req : String) : Option (String × String) :=
       | some (_, oid', keyAlgo, hash') =>
         if keyAlgo != pubType then none
         else if hash' == "Hash(0)" then none
+        else if creatorRefuses.contains req then none      -- `if requestedSigAlgo == MD5WithRSA { err … }` (regenerated list)
         else some (oid', hash')
 
 /-- what the creator hands to the signer / what the signature scheme finally covers -/
